@@ -9,6 +9,7 @@ of such rejections is closed.
 """
 from ..core import Obligation, DISCHARGED, VIOLATION, ALLOWED, NOTE, load_table
 from ..facts import walk, strip_targs
+from ..taint import NEG
 from ..dropped import CanFail, find_sites
 from ..cfgutil import dominating_edges, _strip_not, classify_return
 from ..taint import _tree_eq, FLIP
@@ -150,7 +151,30 @@ def run(ctx, rep):
                         continue
                     kind, what = "callee", strip_targs(tree.get("fn") or "")
                 else:
-                    for l, op, r in _atoms(b.cond, oc):
+                    ats = _atoms(b.cond, oc)
+                    # `if (!size_ok(n, buffer)) return false;` - a bool validation helper (function or lambda):
+                    # judge the comparisons inside it (hoisting a check into a helper must not change the verdict)
+                    if isinstance(tree, dict) and tree.get("k") == "call" and pos is False:
+                        tg = [t_ for t_ in F.targets(tree) if t_.ret.get("t") == "bool"]
+                        if tg and not eng.call_reads_stream(tree):
+                            ats = []
+                            for t_ in tg:
+                                rets = [ev_.get("e") for b_, ev_ in t_.returns()]
+                                for e_ in rets:        # `return a <= b;`
+                                    if isinstance(e_, dict) and e_.get("k") != "lit":
+                                        ats += [(l, NEG[op], r) for l, op, r in _atoms(e_, True)]
+                                for hb in t_.blocks.values():   # `if (a > b) return false;`
+                                    if hb.cond is None or len(hb.succ) != 2:
+                                        continue
+                                    for hoc in (True, False):
+                                        hs = hb.succ[0] if hoc else hb.succ[1]
+                                        if hs is not None and _is_error_block(t_, hs):
+                                            ats += _atoms(hb.cond, hoc)
+                            ats = [(l, op, r) for l, op, r in ats
+                                   if not any(n_.get("k") == "call" and
+                                              strip_targs(n_.get("fn") or "").endswith("remaining_size")
+                                              for x_ in (l, r) if isinstance(x_, dict) for n_ in walk(x_))]
+                    for l, op, r in ats:
                         for side, other, o in ((l, r, op), (r, l, FLIP[op])):
                             c = _const(other)
                             if c is None or not isinstance(side, dict):
@@ -188,6 +212,11 @@ def run(ctx, rep):
     from .C01 import g1justify, wiresig
     g1justify(ctx, rep, only_class=dec_cls, floor=2)
     wiresig(ctx, rep, ids=("md_string", "md_tree", "md_geometry", "header"))
+    from ..rejects import run_rejects
+    rep.rules_text.append("REJECT-LEDGER: every constant-bound rejection of a stream-derived field in the readers (a branch outcome that only reaches failing returns on `field op constant`) is listed in the frozen ledger rules/rejects.json; a new one narrows what the reader accepts")
+    n_rej = run_rejects(ctx, rep, "REJECT-LEDGER", ("/draco/metadata/",))
+    rep.floor("constant-bound rejections inspected", n_rej, 0)
+
     rep.add(Obligation("REJECTDOM", dec_cls, "inventory closed", "-", DISCHARGED,
                        detail="%d non-input-relative rejections found in %s, all listed with their "
                               "writer-side counterpart" % (len(found), dec_cls), trivial=True))
